@@ -63,6 +63,16 @@ fn gen_text(rng: &mut Rng) -> String {
             pools.push((MARKS, 2));
         }
     }
+    // a few symbols from the whole-code-space sample (any width, combining, joiners, jamo ...)
+    let extra: Vec<&str> = if rng.random_bool(0.25) {
+        let t = gen::scalars();
+        (0..rng.random_range(1..=4)).map(|_| t[rng.random_range(0..t.len())].as_str()).collect()
+    } else {
+        vec![]
+    };
+    if !extra.is_empty() {
+        pools.push((&extra, 3));
+    }
     if rng.random_bool(0.1) {
         // no single byte characters at all
         pools.remove(0);
